@@ -336,10 +336,8 @@ struct Harness {
    }
 };
 
-int main(int argc, char** argv)
+static void body(Ctx& C)
 {
-   auto& C = ctx();
-   C.parse(argc, argv);
    C.rule("a case = one name/atom request (constructor, canonical key); distinct = distinct (constructor,key) pairs; random "
           "interleaving over identifier/operator/suffix/conversion/ctor/dtor/guide/template-id/logogram/symbol(+label,+this)/"
           "literal/linkage/convention with spellings drawn from all 56 reserved words, their near misses, odd byte strings and "
@@ -366,6 +364,6 @@ int main(int argc, char** argv)
       H.quiescent();
       if (h == 0) C.sample(J().s("kind", "random-history").n("requests", nreq).raw("a_request", H.describe(H.history[H.history.size() / 3])).n("distinct_identifiers", (long long)H.fwd[IDENT].size()).str());
    }
-   C.finish();
-   return 0;
 }
+
+int main(int argc, char** argv) { return guarded_main(argc, argv, body); }
